@@ -131,6 +131,15 @@ def scan_module(prog, m):
     """Findings [(rule, line, func, construct, message)] and counts for one module."""
     out, counts = [], {"E1": 0, "E2": 0, "E4": 0}
     aliases = rng_aliases(prog)
+    # id(x) used only as the key under which __deepcopy__ registers its result in the memo it was handed
+    memo_keys = set()
+    for fn in ast.walk(m.tree):
+        if isinstance(fn, ast.FunctionDef) and fn.name == "__deepcopy__" and len(fn.args.args) >= 2:
+            memo = fn.args.args[1].arg
+            for n in ast.walk(fn):
+                if isinstance(n, ast.Subscript) and isinstance(n.value, ast.Name) and n.value.id == memo and \
+                        isinstance(n.slice, ast.Call) and isinstance(n.slice.func, ast.Name) and n.slice.func.id == "id":
+                    memo_keys.add(id(n.slice))
     # E1 / E2 on resolved call targets and name references
     for n in ast.walk(m.tree):
         if isinstance(n, ast.Call):
@@ -145,6 +154,8 @@ def scan_module(prog, m):
                     d = r[1]
                 elif r is None and n.func.id in ("id", "hash"):
                     counts["E2"] += 1
+                    if n.func.id == "id" and id(n) in memo_keys:
+                        continue            # memo[id(self)] = copy: the deepcopy protocol's own bookkeeping, the value is unused
                     out.append(("E2", n.lineno, "", f"{n.func.id}() call", f"{n.func.id}() depends on object identity / hash seed"))
             if d is None:
                 continue
